@@ -85,7 +85,8 @@ def iterate {α} (f : α → α) : Nat → α → α
 /-! ## Algorithm 1 / 1.A — encryption of data -/
 
 inductive Method where
-  | v2      -- RC4 (CFM /V2, and V = 1, 2 without crypt filters)
+  | v2      -- RC4 in a /V 1 or 2 file (no crypt filters: every string and stream is encrypted)
+  | v2cf    -- RC4 as the /CFM /V2 method of the standard crypt filter in a /V 4 file (PDF 1.5)
   | aesv2   -- AES-128 CBC
   | aesv3   -- AES-256 CBC
   deriving DecidableEq, Repr
@@ -107,12 +108,14 @@ def encryptData (C : Crypto) (m : Method) (fileKey : Bytes) (num gen : Nat) (iv 
   let k := objectKey C m fileKey num gen
   match m with
   | .v2 => C.rc4 k data
+  | .v2cf => C.rc4 k data
   | _ => iv ++ cbcEnc C k iv (pad16 data)
 
 def decryptData (C : Crypto) (m : Method) (fileKey : Bytes) (num gen : Nat) (data : Bytes) : Option Bytes :=
   let k := objectKey C m fileKey num gen
   match m with
   | .v2 => some (C.rc4 k data)
+  | .v2cf => some (C.rc4 k data)
   | _ =>
     if data.length < 32 ∨ data.length % 16 ≠ 0 then none
     else unpad16 (cbcDec C k (data.take 16) (data.drop 16))
@@ -288,18 +291,65 @@ def pOfInteger (i : Int) : Nat := (i % 2 ^ 32).toNat
 inductive Val where
   | int (i : Int) | name (s : String) | str (b : Bytes) | bool (b : Bool) | dict (kv : List (String × Val))
 
+/-- what a piece of data is, as far as the choice of the crypt filter goes (Table 20) -/
+inductive DataKind where
+  | string | stream | embeddedFile
+  deriving DecidableEq, Repr
+
+/-- Table 20, `/StmF`, `/StrF`, `/EFF` (V 4, 5): to which kinds of data the standard crypt filter
+`/StdCF` applies; the others get `/Identity` (stored as they are).  "EFF: the name of the crypt
+filter that shall be used when encrypting embedded file streams that do not have their own
+crypt filter specifier; … if this entry is not present … the embedded file stream shall be
+encrypted using the default stream crypt filter specified by StmF." -/
+structure Selection where
+  streams : Bool := true
+  strings : Bool := true
+  embeddedFiles : Bool := true
+  deriving DecidableEq, Repr
+
+def Selection.applies (s : Selection) : DataKind → Bool
+  | .string => s.strings
+  | .stream => s.streams
+  | .embeddedFile => s.embeddedFiles
+
+/-- crypt filters, and with them `/Crypt` stream filters and the selection above, exist only
+in files whose encryption dictionary has /V 4 or 5; in a /V 1 or 2 file every string and every
+stream is encrypted (7.6.2) -/
+def Method.hasCryptFilters : Method → Bool
+  | .v2 => false
+  | _ => true
+
+def cfName (b : Bool) : Val := .name (if b then "StdCF" else "Identity")
+
+/-- the /StmF /StrF (/EFF) entries; /EFF only where it differs from /StmF -/
+def selectionEntries (sel : Selection) : List (String × Val) :=
+  [("StmF", cfName sel.streams), ("StrF", cfName sel.strings)] ++
+  (if sel.embeddedFiles = sel.streams then [] else [("EFF", cfName sel.embeddedFiles)])
+
 /-- the Encrypt dictionary of a file protected with method `m` -/
-def encryptDict (m : Method) (keyBits : Nat) (p : Params) : List (String × Val) :=
+def encryptDict (m : Method) (keyBits : Nat) (p : Params) (sel : Selection := {}) : List (String × Val) :=
   [("Filter", .name "Standard")] ++
   (match m with
    | .v2 => if keyBits = 40 then [("V", .int 1)] else [("V", .int 2), ("Length", .int keyBits)]
-   | .aesv2 => [("V", .int 4), ("StmF", .name "StdCF"), ("StrF", .name "StdCF"),
-                ("CF", .dict [("StdCF", .dict [("CFM", .name "AESV2"), ("Length", .int 128)])])]
-   | .aesv3 => [("V", .int 5), ("Length", .int 256), ("StmF", .name "StdCF"), ("StrF", .name "StdCF"),
-                ("CF", .dict [("StdCF", .dict [("CFM", .name "AESV3"), ("Length", .int 256)])])]) ++
+   | .v2cf => [("V", .int 4)] ++ selectionEntries sel ++
+                [("CF", .dict [("StdCF", .dict [("CFM", .name "V2"), ("Length", .int 128)])])]
+   | .aesv2 => [("V", .int 4)] ++ selectionEntries sel ++
+                [("CF", .dict [("StdCF", .dict [("CFM", .name "AESV2"), ("Length", .int 128)])])]
+   | .aesv3 => [("V", .int 5), ("Length", .int 256)] ++ selectionEntries sel ++
+                [("CF", .dict [("StdCF", .dict [("CFM", .name "AESV3"), ("Length", .int 256)])])]) ++
   [("R", .int p.R), ("O", .str p.O), ("U", .str p.U), ("P", .int (pAsInteger p.P))] ++
   (if p.encryptMetadata then [] else [("EncryptMetadata", .bool false)]) ++
   (if p.R = 6 then [("OE", .str p.OE), ("UE", .str p.UE), ("Perms", .str p.Perms)] else [])
+
+/-- what is stored for a piece of data of object `(num, gen)`: encrypted if the crypt filter
+selected for its kind is the standard one, unchanged under `/Identity` -/
+def storeData (C : Crypto) (m : Method) (sel : Selection) (kind : DataKind) (fileKey : Bytes)
+    (num gen : Nat) (iv data : Bytes) : Bytes :=
+  if sel.applies kind then encryptData C m fileKey num gen iv data else data
+
+def loadData (C : Crypto) (m : Method) (sel : Selection) (kind : DataKind) (fileKey : Bytes)
+    (num gen : Nat) (data : Bytes) : Option Bytes :=
+  if sel.applies kind then decryptData C m fileKey num gen data else some data
 
 /-- Table 21, `/R`: "2 if the document is encrypted with a V value less than 2 and does not have
 any of the access permissions set to 0 that are designated 'Security handlers of revision 3 or
